@@ -54,7 +54,7 @@ Theorem C10_idempotent : forall pe_ok front_ok cfg_ok d bs,
 Proof. exact update_idempotent. Qed.
 
 Example C10_same_commands_instance :   (* heading, a test with a continuation whose new body holds a fence line, trailing prose *)
-  let d := [EHeading 1 [84]; EBlank; EScrut 3 (Some [32; 97]) [[35]] (Some ([99], [[100]], [BExp [111]])) []; EProse [80]] in
+  let d := [EHeading 1 [84]; EBlank; EScrut 3 (Some [32; 97]) [32] [[35]] (Some ([99], [[100]], [BExp [111]])) []; EProse [80]] in
   let bs := [[BExp [96; 96; 96]; BCode [51]]] in
   wf_md (fun _ => true) (fun _ => true) (fun _ => true) d = true /\ length bs = commands d
   /\ wf_md (fun _ => true) (fun _ => true) (fun _ => true) (subst d bs) = true
